@@ -57,7 +57,9 @@ ASSUMPTIONS = [
 ]
 RULE = ("white box (seeded): per suite, payload lengths 0..43 (cbc) / 0..99 (gcm) give records <= 128 bytes: the genuine record, EVERY single-bit "
         "flip of every byte incl. header (length-field bits are expected to be ignored by halfConn.decrypt), every truncation, extensions 1..48; "
-        "hand-built CBC records for every padding length 0..255 (must be accepted) with every padding byte corrupted, MAC bits flipped, "
+        "hand-built CBC records for every padding length 0..255 (must be accepted) with every padding byte corrupted (implementation and "
+        "predicate on every position; in the quick tier the model is compared on <= 8 positions per padding length - length byte, first, "
+        "last, middle, three random - and on all of them in the thorough tier), MAC bits flipped, "
         "inconsistent length bytes (must be rejected); payload sizes up to 16384; sequence numbers 0, 1, 2^32-1, 2^32, 2^64-2, 2^64-1 "
         "(panic), wrong seq / key / MAC key / fixed nonce / direction; extractPadding on 3800 tails; incSeq, roundUp, padToBlockSize sweeps; "
         "48 stateful write/read pairs (several records, GMSSL and TLS 1.0 implicit IV); 372 handshake-phase readRecord runs "
